@@ -250,6 +250,10 @@ class Unit:
         self._record(item, file, kind, path, "type")
         gen.add("// ---- %s %s %s:%d-%d sha256=%s" % (kind, path, file, item.line_start, item.line_end, item.sha256[:16]),
                 ("gen", "item-header"))
+        if kind in ("struct", "enum"):
+            # N6: restricted visibility on a type declaration is widened to `pub` (Verus derives `open` accessor spec functions for
+            # datatypes, which must be `pub`; visibility has no run-time meaning)
+            text = re.sub(r"(?m)^(\s*)pub\((crate|super)\)\s+(struct|enum)\b", r"\1pub \3", text, count=1)
         derives = re.search(r"#\[derive\(([^)]*)\)\]", text)
         dl = [x.strip() for x in derives.group(1).split(",")] if derives else []
         if kind == "const" and it.get("static_lifetime"):
@@ -282,11 +286,12 @@ class Unit:
         generics = it.get("generics", "")       # e.g. "<S: Database>"
         gargs = it.get("generic_args", "")      # e.g. "<S>"
         if kind in ("struct", "enum") and "PartialEq" in dl and it.get("eq_companion", True):
+            vis = "open" if re.search(r"(?m)^\s*pub\s+(struct|enum)\b", text) else "closed"
             gen.add(
                 "impl%s vstd::std_specs::cmp::PartialEqSpecImpl for %s%s {\n"
-                "    open spec fn obeys_eq_spec() -> bool { true }\n"
-                "    open spec fn eq_spec(&self, other: &%s%s) -> bool { *self == *other }\n"
-                "}" % (generics, path, gargs, path, gargs), ("gen", "companion:PartialEqSpecImpl:" + path))
+                "    %s spec fn obeys_eq_spec() -> bool { true }\n"
+                "    %s spec fn eq_spec(&self, other: &%s%s) -> bool { *self == *other }\n"
+                "}" % (generics, path, gargs, vis, vis, path, gargs), ("gen", "companion:PartialEqSpecImpl:" + path))
         if clone_comp:
             gen.add(
                 "impl%s Clone for %s%s {\n"
